@@ -1,21 +1,25 @@
+/- Root of the library: what the driver needs. The property theorems (Props/Cxx.lean) are built
+   one module per property (`lake build NotationModel.Props.Cxx`, see setup.sh and check): they are
+   never imported together, so the hand-written type modules of different properties
+   (Src/TypesCxx.lean) may define the same Go library function under the same name. -/
 import NotationModel.Basic
-import NotationModel.Props.C01
-import NotationModel.Props.C02
-import NotationModel.Props.C03
-import NotationModel.Props.C04
-import NotationModel.Props.C05
-import NotationModel.Props.C06
-import NotationModel.Props.C07
-import NotationModel.Props.C08
-import NotationModel.Props.C09
-import NotationModel.Props.C10
-import NotationModel.Props.C11
-import NotationModel.Props.C12
-import NotationModel.Props.C13
-import NotationModel.Props.C14
-import NotationModel.Props.C15
-import NotationModel.Props.C16
-import NotationModel.Props.C17
-import NotationModel.Props.C18
-import NotationModel.Props.C19
-import NotationModel.Props.C20
+import NotationModel.Model.C01
+import NotationModel.Model.C02
+import NotationModel.Model.C03
+import NotationModel.Model.C04
+import NotationModel.Model.C05
+import NotationModel.Model.C06
+import NotationModel.Model.C07
+import NotationModel.Model.C08
+import NotationModel.Model.C09
+import NotationModel.Model.C10
+import NotationModel.Model.C11
+import NotationModel.Model.C12
+import NotationModel.Model.C13
+import NotationModel.Model.C14
+import NotationModel.Model.C15
+import NotationModel.Model.C16
+import NotationModel.Model.C17
+import NotationModel.Model.C18
+import NotationModel.Model.C19
+import NotationModel.Model.C20
